@@ -137,7 +137,7 @@ seq_t dtw_warping_paths{{ suffix }}{{ suffix2 }}(seq_t *wps,
         {%- if "affinity" in suffix %}
         if (only_triu) {
             if (ci < ri) {
-                for (; ci<ri; ci++) {
+                for (; ci<ri && ci<max_ci; ci++) {
                     wps[ri_width + wpsi] = -INFINITY;
                     wpsi++;
                 }
@@ -215,7 +215,7 @@ seq_t dtw_warping_paths{{ suffix }}{{ suffix2 }}(seq_t *wps,
         {%- if "affinity" in suffix %}
         if (only_triu) {
             if (ci < ri) {
-                for (; ci<ri; ci++) {
+                for (; ci<ri && ci<max_ci; ci++) {
                     wps[ri_width + wpsi] = -INFINITY;
                     wpsi++;
                 }
@@ -293,7 +293,7 @@ seq_t dtw_warping_paths{{ suffix }}{{ suffix2 }}(seq_t *wps,
         {%- if "affinity" in suffix %}
         if (only_triu) {
             if (ci < ri) {
-                for (; ci<ri; ci++) {
+                for (; ci<ri && ci<max_ci; ci++) {
                     wps[ri_width + wpsi] = -INFINITY;
                     wpsi++;
                 }
@@ -381,7 +381,7 @@ seq_t dtw_warping_paths{{ suffix }}{{ suffix2 }}(seq_t *wps,
         {%- if "affinity" in suffix %}
         if (only_triu) {
             if (ci < ri) {
-                for (; ci<ri; ci++) {
+                for (; ci<ri && ci<l2; ci++) {
                     wps[ri_width + wpsi] = -INFINITY;
                     wpsi++;
                 }
